@@ -357,8 +357,23 @@ theorem step_evolves (rule : Pump.Rule) (t : Topo) (s : Sys) (st : Teardown.Step
             ((flushReads_evolves rule t wi r _ _).mono (by simp))).1
         · exact (((prim_evolves rule t s wo .recv (by simp)).mono (fp' := [wo, wi]) (by simp)).trans
             ((flushReads_evolves rule t wi r _ _).mono (by simp))).2
-      | closed => simp only; exact SysEvolves.refl rule _ s
+      | closed =>
+        simp only
+        refine ⟨?_, ?_⟩ <;> simp only [setReads_comp]
+        · exact ((flushReads_evolves rule t wi r s _).mono (fp' := [wo, wi]) (by simp)).1
+        · exact ((flushReads_evolves rule t wi r s _).mono (fp' := [wo, wi]) (by simp)).2
       | blocked => simp only; exact SysEvolves.refl rule _ s
+  | fwdEnd w r =>
+    simp only [Teardown.step, footprint]
+    cases hl : t.listener w r with
+    | sink k => simp only; exact SysEvolves.refl rule _ s
+    | node wo =>
+      simp only
+      split
+      · refine ⟨?_, ?_⟩ <;> simp only [setReads_comp]
+        · exact (flushReads_evolves rule t w r _ _).1
+        · exact (flushReads_evolves rule t w r _ _).2
+      · exact SysEvolves.refl rule _ s
   | down td => exact closes_evolves rule t s (closes t td)
 
 def RunNoSteal (h : List Teardown.Step) : Prop := ∀ st ∈ h, StepNoSteal st
@@ -397,8 +412,7 @@ def Backed (c : Comp) : Prop := ∃ s : S, Rel c.w s
 
 theorem backed_init : Backed {} := ⟨S.init, rel_init⟩
 
-theorem backed_applyC (rule : Pump.Rule) (c : Comp) (x : CStep) (hb : Backed c)
-    (hx : ∀ st, x = .w st → relinkPending c.w st = false) : Backed (applyC rule c x).1 := by
+theorem backed_applyC (rule : Pump.Rule) (c : Comp) (x : CStep) (hb : Backed c) : Backed (applyC rule c x).1 := by
   cases x with
   | w st =>
     obtain ⟨s, hR⟩ := hb
@@ -600,7 +614,7 @@ theorem release (n : Nat) : ∀ c : Comp, mu c ≤ n → CInv c → Backed c →
       rcases enabled c hi hb ht hop with hbuf | hex | ⟨hnd, r, hr, hd⟩
       · obtain ⟨hlt, hw⟩ := recv_decreases c hi hop (Or.inl hbuf)
         have hi' := cinv_recv c hi
-        have hb' : Backed (applyC .discard c .recv).1 := backed_applyC .discard c .recv hb (by intro st h; cases h)
+        have hb' : Backed (applyC .discard c .recv).1 := backed_applyC .discard c .recv hb
         have ht' : TornDown (applyC .discard c .recv).1 := by unfold TornDown; rw [hw]; exact ht
         obtain ⟨cs, f, l, o, i⟩ := ih _ (by omega) hi' hb' ht'
         refine ⟨.recv :: cs, ?_, by simp; omega, by simpa [runC] using o, by simpa [runC] using i⟩
@@ -611,7 +625,7 @@ theorem release (n : Nat) : ∀ c : Comp, mu c ≤ n → CInv c → Backed c →
         · exact f x hx
       · obtain ⟨hlt, hw⟩ := recv_decreases c hi hop (Or.inr hex)
         have hi' := cinv_recv c hi
-        have hb' : Backed (applyC .discard c .recv).1 := backed_applyC .discard c .recv hb (by intro st h; cases h)
+        have hb' : Backed (applyC .discard c .recv).1 := backed_applyC .discard c .recv hb
         have ht' : TornDown (applyC .discard c .recv).1 := by unfold TornDown; rw [hw]; exact ht
         obtain ⟨cs, f, l, o, i⟩ := ih _ (by omega) hi' hb' ht'
         refine ⟨.recv :: cs, ?_, by simp; omega, by simpa [runC] using o, by simpa [runC] using i⟩
@@ -623,7 +637,7 @@ theorem release (n : Nat) : ∀ c : Comp, mu c ≤ n → CInv c → Backed c →
       · obtain ⟨hlt, hd', hrd, hcl⟩ := drop_decreases c hi hb r hr hnd hd
         have hi' := cinv_w c (.deliverDrop r) hi
         have hb' : Backed (applyC .discard c (.w (.deliverDrop r))).1 :=
-          backed_applyC .discard c _ hb (by intro st h; injection h with h; subst h; rfl)
+          backed_applyC .discard c _ hb
         have ht' : TornDown (applyC .discard c (.w (.deliverDrop r))).1 := by
           unfold TornDown; rw [hrd, hcl]
           rcases ht with h | h
@@ -637,26 +651,20 @@ theorem release (n : Nat) : ∀ c : Comp, mu c ≤ n → CInv c → Backed c →
         · exact Or.inr (Or.inr ⟨r, rfl⟩)
         · exact f x hx
 
-/-! ### `Backed` along system histories that never re-link a reader with requests outstanding -/
+/-! ### `Backed` along every system history
 
-/-- The step does not re-link (C01 known finding `relink-with-pending`). Ports never do: they link
-every reader in `OutPort.Open`, before the writer is handed out, and never unlink. -/
-def stepNoRelink (s : Sys) : Teardown.Step → Prop
-  | .prim w (.w st) => relinkPending (s.comp w).w st = false
-  | _ => True
-
-def NoRelinkRun (rule : Pump.Rule) (t : Topo) (s : Sys) : List Teardown.Step → Prop
-  | [] => True
-  | st :: h => stepNoRelink s st ∧ NoRelinkRun rule t (Teardown.step rule t s st).1 h
+Every critical section of the writer machine is one step of C01's specification from every related
+pair of states (`sim_step`, unconditional since the link generations), so `Backed` is an invariant
+of every history. -/
 
 def AllBacked (s : Sys) : Prop := ∀ x, Backed (s.comp x)
 
-theorem backed_prim (rule : Pump.Rule) (t : Topo) (s : Sys) (w : WId) (c : CStep) (hb : AllBacked s)
-    (hx : ∀ st, c = .w st → relinkPending (s.comp w).w st = false) : AllBacked (applyPrim rule t s w c).1 := by
+theorem backed_prim (rule : Pump.Rule) (t : Topo) (s : Sys) (w : WId) (c : CStep) (hb : AllBacked s) :
+    AllBacked (applyPrim rule t s w c).1 := by
   intro x
   rw [applyPrim_comp]
   split
-  · exact backed_applyC rule _ c (hb w) hx
+  · exact backed_applyC rule _ c (hb w)
   · exact hb x
 
 theorem backed_flush (rule : Pump.Rule) (t : Topo) (w : WId) (r : RId) (s : Sys) (l : List (Nat × Option Ans))
@@ -669,7 +677,7 @@ theorem backed_flush (rule : Pump.Rule) (t : Topo) (w : WId) (r : RId) (s : Sys)
     | none => simpa [flushReads] using hb
     | some a =>
       simp only [flushReads]
-      exact ih _ (backed_prim rule t s w _ hb (by intro st h; injection h with h; subst h; rfl))
+      exact ih _ (backed_prim rule t s w _ hb)
 
 theorem backed_closes (rule : Pump.Rule) (t : Topo) (s : Sys) (cl : List Close) (hb : AllBacked s) :
     AllBacked (applyCloses rule t s cl) := by
@@ -679,15 +687,13 @@ theorem backed_closes (rule : Pump.Rule) (t : Topo) (s : Sys) (cl : List Close) 
     simp only [applyCloses]
     apply ih
     cases c with
-    | reader w r => exact backed_prim rule t s w _ hb (by intro st h; injection h with h; subst h; rfl)
-    | writer w => exact backed_prim rule t s w _ hb (by intro st h; injection h with h; subst h; rfl)
+    | reader w r => exact backed_prim rule t s w _ hb
+    | writer w => exact backed_prim rule t s w _ hb
 
-theorem backed_step (rule : Pump.Rule) (t : Topo) (s : Sys) (st : Teardown.Step) (hb : AllBacked s)
-    (hn : stepNoRelink s st) : AllBacked (Teardown.step rule t s st).1 := by
+theorem backed_step (rule : Pump.Rule) (t : Topo) (s : Sys) (st : Teardown.Step) (hb : AllBacked s) :
+    AllBacked (Teardown.step rule t s st).1 := by
   cases st with
-  | prim w c =>
-    apply backed_prim rule t s w c hb
-    intro st' h; subst h; exact hn
+  | prim w c => exact backed_prim rule t s w c hb
   | fwd w r =>
     simp only [Teardown.step]
     cases hl : t.listener w r with
@@ -699,7 +705,7 @@ theorem backed_step (rule : Pump.Rule) (t : Topo) (s : Sys) (st : Teardown.Step)
         simp only
         intro x; rw [setReads_comp]
         refine backed_flush rule t w r _ _ ?_ x
-        exact backed_prim rule t _ wo _ (fun y => hb y) (by intro st h; injection h with h; subst h; rfl)
+        exact backed_prim rule t _ wo _ (fun y => hb y)
   | bwd wo =>
     simp only [Teardown.step]
     cases hc : t.consumer wo with
@@ -711,17 +717,165 @@ theorem backed_step (rule : Pump.Rule) (t : Topo) (s : Sys) (st : Teardown.Step)
         simp only
         intro x; rw [setReads_comp]
         refine backed_flush rule t wi r _ _ ?_ x
-        exact backed_prim rule t s wo _ hb (by intro st h; cases h)
-      | closed => exact hb
+        exact backed_prim rule t s wo _ hb
+      | closed =>
+        simp only
+        intro x; rw [setReads_comp]
+        exact backed_flush rule t wi r _ _ hb x
       | blocked => exact hb
+  | fwdEnd w r =>
+    simp only [Teardown.step]
+    cases hl : t.listener w r with
+    | sink k => exact hb
+    | node wo =>
+      simp only
+      split
+      · intro x; rw [setReads_comp]
+        exact backed_flush rule t w r { s with inbox := fun x y => if x = w ∧ y = r then [] else s.inbox x y } _ (fun y => hb y) x
+      · exact hb
   | down td => exact backed_closes rule t s _ hb
 
-theorem backed_run (rule : Pump.Rule) (t : Topo) (s : Sys) (h : List Teardown.Step) (hb : AllBacked s)
-    (hn : NoRelinkRun rule t s h) : AllBacked (Teardown.run rule t s h) := by
+theorem backed_run (rule : Pump.Rule) (t : Topo) (s : Sys) (h : List Teardown.Step) (hb : AllBacked s) :
+    AllBacked (Teardown.run rule t s h) := by
   induction h generalizing s with
   | nil => exact hb
   | cons st rest ih =>
     simp only [Teardown.run]
-    exact ih _ (backed_step rule t s st hb hn.1) hn.2
+    exact ih _ (backed_step rule t s st hb)
+
+end Uniflow.TeardownProofs
+
+/-! ### A node whose out-writer is closed: `Tracer.Drop` at the end of the backward loop -/
+
+namespace Uniflow.TeardownProofs
+open Uniflow Uniflow.Writer Uniflow.Teardown Uniflow.WriterProofs
+
+theorem fillAll_all_some (a : Ans) (l : List (Nat × Option Ans)) : ∀ e ∈ fillAll a l, e.2.isSome = true := by
+  induction l with
+  | nil => intro e he; cases he
+  | cons x rest ih =>
+    obtain ⟨v, oa⟩ := x
+    cases oa with
+    | none =>
+      intro e he
+      simp only [fillAll, List.mem_cons] at he
+      rcases he with rfl | he
+      · rfl
+      · exact ih e he
+    | some b =>
+      intro e he
+      simp only [fillAll, List.mem_cons] at he
+      rcases he with rfl | he
+      · rfl
+      · exact ih e he
+
+/-- When every request has its answer, `flushReads` passes all of them up and nothing is left. -/
+theorem flushReads_all_some (rule : Pump.Rule) (t : Topo) (w : WId) (r : RId) (s : Sys) (l : List (Nat × Option Ans))
+    (h : ∀ e ∈ l, e.2.isSome = true) : (flushReads rule t w r s l).2 = [] := by
+  induction l generalizing s with
+  | nil => rfl
+  | cons x rest ih =>
+    obtain ⟨v, oa⟩ := x
+    cases oa with
+    | none => have := h (v, none) (by simp); simp at this
+    | some a =>
+      simp only [flushReads]
+      exact ih _ (fun e he => h e (by simp [he]))
+
+theorem applyPrim_reads (rule : Pump.Rule) (t : Topo) (s : Sys) (w : WId) (c : CStep) :
+    (applyPrim rule t s w c).1.reads = s.reads := by
+  simp only [applyPrim]
+  split <;> rfl
+
+theorem run_append (rule : Pump.Rule) (t : Topo) (s : Sys) (a b : List Teardown.Step) :
+    Teardown.run rule t s (a ++ b) = Teardown.run rule t (Teardown.run rule t s a) b := by
+  induction a generalizing s with
+  | nil => rfl
+  | cons st rest ih => simp only [List.cons_append, Teardown.run]; exact ih _
+
+/-- States reachable by histories in which every requester is the sole consumer of its writer. -/
+def Reach (t : Topo) (s : Sys) : Prop := ∃ h, RunNoSteal h ∧ s = Teardown.run .discard t {} h
+
+theorem reach_step {t : Topo} {s : Sys} (hr : Reach t s) (st : Teardown.Step) (hs : StepNoSteal st) :
+    Reach t (Teardown.step .discard t s st).1 := by
+  obtain ⟨h, hn, e⟩ := hr
+  refine ⟨h ++ [st], ?_, ?_⟩
+  · intro x hx
+    rcases List.mem_append.1 hx with hx | hx
+    · exact hn x hx
+    · simp only [List.mem_singleton] at hx; subst hx; exact hs
+  · rw [run_append, ← e]; rfl
+
+theorem reach_cinv {t : Topo} {s : Sys} (hr : Reach t s) (w : WId) : CInv (s.comp w) := by
+  obtain ⟨h, hn, e⟩ := hr
+  obtain ⟨cs, n, e2⟩ := run_evolves .discard t {} h hn w
+  rw [e, e2]
+  exact cinv_run _ cs cinv_init n
+
+/-- The backward loop's last act on the closed channel: nothing the node had taken is left waiting. -/
+theorem bwd_closed_clears (t : Topo) (s : Sys) (wo wi : WId) (r : RId) (hc : t.consumer wo = .node wi r)
+    (hb : (s.comp wo).p.buf = []) (he : (s.comp wo).p.exited = true) :
+    (Teardown.step .discard t s (.bwd wo)).1.reads wi r = [] := by
+  have hr : Pump.recv (s.comp wo).p = .closed := by simp [Pump.recv, hb, he]
+  simp only [Teardown.step, hc, hr, setReads, and_self, if_true]
+  exact flushReads_all_some _ _ _ _ _ _ (fillAll_all_some _ _)
+
+/-- Once a node's out-writer `wo` is closed, at most `buffered + 2` steps of its own goroutines
+(backward-loop iterations and the writer pump returning) leave nothing the node had taken from
+its in-reader `(wi, r)` waiting: every such request has been answered upstream, in read order –
+with the response that was still delivered, or with `dropped`. -/
+theorem node_release (t : Topo) (wo wi : WId) (r : RId) (hc : t.consumer wo = .node wi r) (hne : wo ≠ wi) :
+    ∀ (n : Nat) (s : Sys), Reach t s → (s.comp wo).w.done = true → (s.comp wo).p.buf.length ≤ n →
+      ∃ sched : List Teardown.Step, (∀ st ∈ sched, st = .bwd wo ∨ st = .prim wo .pumpExit) ∧
+        sched.length ≤ n + 2 ∧ (Teardown.run .discard t s sched).reads wi r = [] := by
+  intro n
+  induction n with
+  | zero =>
+    intro s hr hd hn
+    have hb : (s.comp wo).p.buf = [] := List.length_eq_zero_iff.1 (Nat.le_zero.1 hn)
+    have hi := reach_cinv hr wo
+    cases he : (s.comp wo).p.exited with
+    | true =>
+      exact ⟨[.bwd wo], by simp, by simp, by simpa [Teardown.run] using bwd_closed_clears t s wo wi r hc hb he⟩
+    | false =>
+      have hic : (s.comp wo).p.inClosed = true := by rw [hi.closed]; exact hd
+      refine ⟨[.prim wo .pumpExit, .bwd wo], by simp, by simp, ?_⟩
+      simp only [Teardown.run]
+      apply bwd_closed_clears t _ wo wi r hc
+      · simp [Teardown.step, applyPrim_comp, applyC, Pump.stepR, hic]
+      · simp [Teardown.step, applyPrim_comp, applyC, Pump.stepR, hic]
+  | succ n ih =>
+    intro s hr hd hn
+    cases hb : (s.comp wo).p.buf with
+    | nil => exact
+        (let ⟨sched, h1, h2, h3⟩ := ih s hr hd (by rw [hb]; simp); ⟨sched, h1, by omega, h3⟩)
+    | cons a rest =>
+      have hi := reach_cinv hr wo
+      have hex : (s.comp wo).p.exited = false := by
+        cases he : (s.comp wo).p.exited with
+        | false => rfl
+        | true => have := (hi.exit he).1; rw [hb] at this; cases this
+      have hout := hi.outstanding hex
+      have hpos : (s.comp wo).got.length < (s.comp wo).accepted := by
+        rw [hb] at hout; unfold Comp.outstanding at hout; simp only [List.length_cons] at hout; omega
+      have hrecv : Pump.recv (s.comp wo).p = .got a := by simp [Pump.recv, hb]
+      -- one backward-loop iteration
+      have hs' := reach_step hr (.bwd wo) trivial
+      have hcomp : ((Teardown.step .discard t s (.bwd wo)).1.comp wo) = (applyC .discard (s.comp wo) .recv).1 := by
+        simp only [Teardown.step, hc, hrecv, setReads_comp]
+        rw [(flushReads_evolves .discard t wi r _ _).2 wo (by simp [hne]), applyPrim_comp]
+        simp
+      have hc2 : (applyC .discard (s.comp wo) .recv).1.w = (s.comp wo).w ∧
+          (applyC .discard (s.comp wo) .recv).1.p.buf = rest := by
+        simp only [applyC, hpos, if_true, hrecv, Pump.stepR, hb]
+        exact ⟨trivial, trivial⟩
+      obtain ⟨sched, h1, h2, h3⟩ := ih _ hs' (by rw [hcomp, hc2.1]; exact hd)
+        (by rw [hcomp, hc2.2]; rw [hb] at hn; simp only [List.length_cons] at hn; omega)
+      refine ⟨.bwd wo :: sched, ?_, by simp; omega, by simpa [Teardown.run] using h3⟩
+      intro st hst
+      simp only [List.mem_cons] at hst
+      rcases hst with rfl | hst
+      · exact Or.inl rfl
+      · exact h1 st hst
 
 end Uniflow.TeardownProofs
